@@ -1368,6 +1368,7 @@ func (ls *LState) Replace(idx int, value LValue) {
 		case GlobalsIndex:
 			if tb, ok := value.(*LTable); ok {
 				ls.G.Global = tb
+				ls.Env = tb // lua_replace sets the thread's table of globals, which newly loaded chunks get
 			} else {
 				ls.RaiseError("_G must be a table(%v)", value.Type().String())
 			}
